@@ -16,8 +16,8 @@ REPLAY_BIN = os.path.join(VERIF, ".build", "replay", "debug", "h3-verif-replay")
 
 SPECS = {
     # property -> list of (spec name, module, tiers)
-    "C02": [("c02_frame_decoder_memo", "c02m")],
-    "C03": [("c03_request_stream_sequences", "c03"), ("c02_frame_decoder_memo", "c02m")],
+    "C02": [("c02_frame_decoder_memo", "c02m"), ("c02_chunk_list_is_one_buffer", "buflist")],
+    "C03": [("c03_request_stream_sequences", "c03"), ("c02_frame_decoder_memo", "c02m"), ("c02_chunk_list_is_one_buffer", "buflist")],
     "C04": [("c04_control_stream_rules", "c04"), ("c02_frame_decoder_memo", "c02m"), ("c19_uni_stream_header", "c19m"), ("c04_uni_stream_classification", "c04b")],
     "C06": [("c02_frame_decoder_memo", "c02m"), ("c19_uni_stream_header", "c19m")],
     "C07": [("c07_stream_scoped_faults", "c03"), ("c02_frame_decoder_memo", "c02m"), ("c10_send_side_limit", "c10m")],
@@ -30,7 +30,7 @@ SPECS = {
     "C13": [("c13_setup_sequence", "c13m")],
     "C14": [("c13_setup_sequence", "c13m")],
     "C17": [("c17_quinn_adapter", "c17")],
-    "C19": [("c19_uni_stream_header", "c19m"), ("c04_uni_stream_classification", "c04b")],
+    "C19": [("c19_uni_stream_header", "c19m"), ("c04_uni_stream_classification", "c04b"), ("c02_chunk_list_is_one_buffer", "buflist")],
 }
 
 
